@@ -447,8 +447,8 @@ func runC11(seed int64, tier string, sc *Script) map[string]any {
 	runOne("sym-abs-dotdot", []tarEnt{{'d', "d/s", ""}, {'s', "d/s/l1", "ABSWD:d/d/s/../../../../../../outside/victim"}, {'r', "d/s/l1", ""}}, "")
 	// absolute entry names that are lexically inside the unpack directory but whose ".."
 	// segments follow a symbolic link an earlier entry created (the link itself stays inside)
-	runOne("name-abs-dotdot", []tarEnt{{'d', "d1/d2", ""}, {'s', "d1/d2/l", "../.."}, {'r', "ABSWD:d/d1/d2/l/../../victim", ""}}, "")
-	runOne("name-abs-dotdot", []tarEnt{{'d', "d1/d2", ""}, {'s', "d1/d2/l", "../.."}, {'d', "ABSWD:d/d1/d2/l/../../planted", ""}}, "")
+	runOne("name-abs-dotdot", []tarEnt{{'d', "d/d1/d2", ""}, {'s', "d/d1/d2/l", "../.."}, {'r', "ABSWD:d/d1/d2/l/../../victim", ""}}, "")
+	runOne("name-abs-dotdot", []tarEnt{{'d', "d/d1/d2", ""}, {'s', "d/d1/d2/l", "../.."}, {'d', "ABSWD:d/d1/d2/l/../../planted", ""}}, "")
 	runOne("name-abs-dotdot", []tarEnt{{'r', "ABSWD:d/x/../y", ""}}, "")
 	runOne("name-abs-dotdot", []tarEnt{{'r', "ABSWD:d/../../victim", ""}}, "")
 	archiveTitle = "."
